@@ -310,11 +310,14 @@ int run_reformat(struct parameters* param)
         struct msa* msa = NULL;
 
         if(param->num_infiles == 1){
-                kalign_read_input(param->infile[0], &msa,1);
+                RUN(kalign_read_input(param->infile[0], &msa,1));
         }else{
                 for(int i = 0; i < param->num_infiles;i++){
-                        kalign_read_input(param->infile[i], &msa,1);
+                        RUN(kalign_read_input(param->infile[i], &msa,1));
                 }
+        }
+        if(!msa){
+                ERROR_MSG("No sequences were found in the input files or standard input.");
         }
 
         reformat_settings_msa(msa, param->rename, param->unalign);
